@@ -31,7 +31,10 @@ RULE = ("two searches. crash: case = (functional, function kind, debug mode off 
 RULE_ADDED = ('Added later: every crash point also with a fault that does not derive from Exception (KeyboardInterr'
               'upt-like); alias search = every set partition of up to 5 / 6 declared names for EditableModule and L'
               "inearOperator; push label 'first'. Round 4: kind em_cplx (object also holds complex / integer tensor"
-              's that the function does not use).')
+              's that the function does not use). Round 5: re-assignment search = (functional incl. list-state solve_'
+              'ivp, object kind, declared attribute, backward / recorded backward / double backward): the owner ass'
+              'igns a new tensor to the attribute between the forward call and the backward pass, the object must '
+              'hold exactly that state afterwards.')
 ASSUMPTIONS = [
     "one fault per execution in the crash search; the fault is raised at the start of the user's function / "
     "operator product; scripted functions are not enumerated (no object state, no place to inject a fault)",
@@ -98,6 +101,18 @@ def cases(tier, seed):
                             # (KeyboardInterrupt-like): clean-up written as `except Exception` does not run
                             out.append({"search": "crash", "functional": fname, "kind": kind, "debug": debug,
                                         "phase": phase, "rg": rg, "extra": 1, "fault": "base"})
+    # ---- (d) the owner re-assigns one declared attribute between the forward call and the backward pass(es)
+    for fname in FN_FUNCTIONALS:
+        for method in [None] + [m for m in F.METHODS[fname][1:] if m == F.METHODS[fname][0] + ":list"]:
+            for kind in MUT_KINDS:
+                for slot in (0, 1, 2):
+                    for phase in MUT_PHASES:
+                        for debug in (("off",) if quick else ("off", "set")):
+                            c = {"search": "mut", "functional": fname, "kind": kind, "slot": slot, "phase": phase,
+                                 "rg": "abp", "extra": 1, "debug": debug}
+                            if method:
+                                c["method"] = method
+                            out.append(c)
     # ---- (c) every alias partition of up to 5 (quick) / 6 (thorough) declared names
     for k in range(1, (6 if quick else 7)):
         for kindo in ("em", "lo"):
@@ -320,7 +335,7 @@ class World:
             with J.uselinopparams(*fresh):      # forces re-evaluation of the user's function under substitution
                 outs += [J.mv(v), J.rmv(w)]
             return outs
-        return F.run_functional(fname, self.rep, None, "bicgstab" if fname in ("rootfinder", "equilibrium") else (
+        return F.run_functional(fname, self.rep, self.cfg.get("method"), "bicgstab" if fname in ("rootfinder", "equilibrium") else (
             "cg" if fname == "minimize" else None), light=True)
 
     # ---- invariants beyond the snapshot
@@ -1075,7 +1090,78 @@ def run_alias(cfg):
             "status": "violation" if viol else "ok", "n": nexec, "states": states, "transitions": nexec}
 
 
+# =================================================================== (d) owner re-assigns between forward and backward
+
+MUT_KINDS = ["nn_flat", "nn_nested", "nn_tied", "nn_extra", "em_leaves", "em_derived", "em_alias", "em_list",
+             "em_dict", "em_nn", "em_call", "em_cplx", "sib:nn_flat", "sib:nn_nested", "sib:em_list", "sib:em_leaves",
+             "multi_em_em", "multi_em_nn", "multi_nn_em"]
+MUT_PHASES = ["backward", "backward_cg", "double_backward"]
+
+
+def run_mut(cfg):
+    """forward call, then the OWNER of the object assigns a new tensor to one declared attribute (next
+    optimisation step while the old graph is still alive), then the backward pass(es) of the first result.
+    The statement: after any backward pass the object holds exactly the tensor objects it held before it -
+    here the owner's new tensor, not the forward-time one.  Only the state is judged (values are C08's subject)."""
+    xitorch.set_debug_mode(cfg.get("debug") == "set")
+    try:
+        probe = Probe()
+        probe.arm = None
+        world = World(cfg, probe)
+        rep = world.rep
+        if cfg["slot"] >= len(rep.slots):
+            return {"viol": [], "obs": {"slots": len(rep.slots)}, "status": "no-such-slot", "trivial": True}
+        torch.manual_seed(777)
+        o = call(world.forward)
+        if o.exc is not None:
+            return {"viol": [V("exception:" + _sig(o.exc), {"message": str(o.exc)[:300]}, stage="forward")],
+                    "obs": {"exc": _sig(o.exc)}, "status": "violation"}
+        outs = o.value
+        holder, name, _ = rep.slots[cfg["slot"]]
+        old = get_attr(holder, name)
+        with torch.no_grad():
+            val = old.detach().clone() * 1.5 + 0.25
+        if isinstance(old, torch.nn.Parameter):
+            new = torch.nn.Parameter(val, requires_grad=old.requires_grad)
+        else:
+            new = val.requires_grad_(old.requires_grad)
+        exec("obj.%s = val" % name, {"obj": holder, "val": new})       # what the owner writes: obj.sub.w = new
+        snap = Snapshot(world.holders)
+        phase = cfg["phase"]
+        loss = F.loss_of(outs)
+        status = "ok"
+        obs = {"attr": name}
+        if not loss.requires_grad:
+            return {"viol": [], "obs": obs, "status": "not-differentiable", "trivial": True}
+
+        def passes():
+            torch.manual_seed(778)
+            g1 = torch.autograd.grad(loss, world.leaves, create_graph=(phase != "backward"), allow_unused=True)
+            if phase == "double_backward":
+                l2 = F.loss2_of(g1)
+                if l2 is not None:
+                    torch.manual_seed(779)
+                    torch.autograd.grad(l2, world.leaves, allow_unused=True)
+            return g1
+        ob = call(passes)
+        if ob.exc is not None:
+            status = "backward-raises"          # not judged by this property; the state below still is
+            obs["exc"] = _sig(ob.exc)
+        viol = []
+        for f, d in snap.diff():
+            viol.append(V(f.replace("state:", "state-after-reassignment:"), {"path": str(d)[:200], "attribute": name},
+                          phase=phase))
+        cur = get_attr(holder, name)
+        if cur is not new and not viol:
+            viol.append(V("state-after-reassignment:owner's-tensor-gone", {"attribute": name}, phase=phase))
+        return {"viol": viol[:4], "obs": obs, "status": "violation" if viol else status, "n": 1}
+    finally:
+        xitorch.set_debug_mode(False)
+
+
 def run_case(cfg):
+    if cfg["search"] == "mut":
+        return run_mut(cfg)
     if cfg["search"] == "protocol":
         return run_protocol(cfg)
     if cfg["search"] == "alias":
@@ -1084,7 +1170,8 @@ def run_case(cfg):
 
 
 def coverage_extra(tier, seed, results):
-    results = [r for r in results if r["cfg"]["search"] != "alias"] or results
+    mut = [r for r in results if r["cfg"]["search"] == "mut"]
+    results = [r for r in results if r["cfg"]["search"] not in ("alias", "mut")] or results
     crash = [r for r in results if r["cfg"]["search"] == "crash"]
     proto = [r for r in results if r["cfg"]["search"] == "protocol"]
     dims = {}
@@ -1092,6 +1179,8 @@ def coverage_extra(tier, seed, results):
         for k in ("functional", "kind", "debug", "phase", "rg"):
             dims.setdefault(k, set()).add(r["cfg"][k])
     return {
+        "reassignment_search": {"cases": len(mut), "judged": len([r for r in mut if not r.get("trivial")]),
+                                "backward_raised": len([r for r in mut if r["status"] == "backward-raises"])},
         "crash_search": {"scenarios": len(crash), "crash_points": int(sum(r.get("crash_points", 0) for r in crash)),
                          "executions": int(sum(r.get("n", 0) for r in crash)),
                          "dimensions": {k: sorted(v) for k, v in dims.items()}},
